@@ -459,8 +459,11 @@ class StateMachine:
             )
 
         # NOTE: this depends on tunables being bound after this function is called
-        cls.state_names = tunable(nt_names, subtable="state")
-        cls.state_descriptions = tunable(nt_desc, subtable="state")
+        # (the lists belong to the class: they are created once per class, so that
+        # creating another instance does not orphan the entries of earlier ones)
+        if "state_names" not in cls.__dict__:
+            cls.state_names = tunable(nt_names, subtable="state")
+            cls.state_descriptions = tunable(nt_desc, subtable="state")
 
         # Indicates that an external party wishes the state machine to execute
         self.__should_engage = False
